@@ -63,6 +63,10 @@ CHECKS = {
    technique="exhaustive enumeration of schema-submission sequences through the real api_v1_db_schema on a database holding rows, metamorphic invariants after every submission and a restart through the real setup() after every sequence",
    text="23 submissions (new table, added nullable / NOT NULL-with-default columns, index added / changed / dropped, resubmission, and forbidden edits: NOT NULL without default, explicit DROP TABLE, dropped column, changed type / default / nullability, changed or added primary key, UNIQUE index, foreign key, syntax error at statement 1/2/3, valid+invalid table pairs in both orders); every sequence of <= 2 (thorough 3) starting with any single submission or an allowed one. Accepted => tables/columns/rows/values only grow, existing column definitions unchanged, replicated data and db_version untouched, resubmission succeeds and changes nothing. Rejected => sqlite_schema, __corro_schema, table contents, crsql_changes and agent.schema() identical to before. Always-forbidden edits are rejected in every state; additive edits are accepted on the base schema; after restart agent.schema() equals the pre-restart value (column order included).",
    note="A crash inside the apply transaction is SQLite's own atomicity and is not enumerated. Two base tables, one with an index and rows."),
+ "C16": dict(engine="edge", design="§5 C16",
+   technique="exhaustive configuration grid on full agents (start_with_config) over loopback QUIC: receiver cluster id x declared id x path x frame order, a run-time change of the cluster id with pre- and post-switch connections, and membership tables mixing clusters observed through harness-owned QUIC listeners",
+   text="Receiver id in {0,1,2} (persisted before start) x sender-declared id in {absent (frame ends early, defaults to 0), 0, 1, 2} on the broadcast path with a foreign and a native frame in the same stream in both orders (the native one proves the stream was processed): a change is applied iff the effective declared id equals the receiver's. Sync served: SyncStart declaring 0/1/2 - first message is Rejection(DifferentCluster) and nothing follows when the ids differ, State when equal. Run-time switch 1 -> 2 through Agent::set_cluster_id with frames on a connection opened before and on one opened after the switch, and sync probes after it. Membership: every assignment (quick: 4 of 8) of 3 peers (two in ring 0) to {own, other} cluster whose addresses are harness QUIC listeners; after a local write and one handle_sync call only same-cluster listeners saw a connection, stream or datagram.",
+   note="foca's own SWIM datagrams and TLS mode are not exercised. Negative observations on the pre-switch connection rely on a 700 ms wait (conservative: can miss, cannot raise a false alarm)."),
  "C17": dict(engine="edge", design="§5 C17",
    technique="exhaustive configuration grid on a live listener running the real router and middleware: routes x methods x Authorization-header shapes x {token configured, not}, and a statement grammar against the read endpoints, with a full state digest after every request",
    text="7 routes x {GET, POST, PUT, DELETE} (+ an unknown path) x 14 Authorization shapes (none, Basic, wrong, prefix, suffix, other case, empty, empty header, two wrong headers, token without scheme, token in another header, lowercase scheme, wrong+exact, exact) x {token configured, not configured}, sent as hand-written HTTP/1.1 over TCP: without the exact token every request gets a 4xx and the database, bookkeeping, schema, version counter and subscription directory are unchanged; with no token configured nothing answers 401; the exact token is never answered 401. Then 26 writing statements (DML, DDL, PRAGMA writes, ATTACH, VACUUM [INTO], BEGIN, side-effecting crsql_* functions in a SELECT list, writes to crsql/bookkeeping tables) x 9 wrappers (plain, before/after a SELECT, trailing comment, EXPLAIN, CTE, RETURNING, sub-select, parameterised) to /v1/queries and /v1/subscriptions: digests unchanged whatever the status.",
@@ -123,7 +127,7 @@ def main():
             {"name": "locks", "path": "harness/src/bin/locks.rs", "serves_properties": ["C20"], "kind_free_text": "stateless DFS over hand-polled SplitPool requesters"},
             {"name": "subs", "path": "harness/src/bin/subs.rs", "serves_properties": ["C11", "C13", "C14"], "kind_free_text": "query x history enumeration with real matchers / update feeds"},
             {"name": "schema", "path": "harness/src/bin/schema.rs", "serves_properties": ["C15"], "kind_free_text": "schema-submission sequence enumeration with metamorphic invariants"},
-            {"name": "edge", "path": "harness/src/bin/edge.rs", "serves_properties": ["C17"], "kind_free_text": "configuration grids on live listeners"},
+            {"name": "edge", "path": "harness/src/bin/edge.rs", "serves_properties": ["C16", "C17"], "kind_free_text": "configuration grids on live listeners / full agents"},
             {"name": "members", "path": "harness/src/bin/members.rs", "serves_properties": ["C18"], "kind_free_text": "stateright BFS over the real Members methods"},
             {"name": "repl", "path": "harness/src/bin/repl.rs", "serves_properties": ["C01", "C03", "C05", "C06"], "kind_free_text": "replay-from-history explicit-state BFS over 2-3 real nodes"},
             {"name": "pure", "path": "harness/src/bin/pure.rs", "serves_properties": ["C04", "C08"], "kind_free_text": "exhaustive small-scope enumeration of pure functions against set models"},
